@@ -80,12 +80,18 @@ structure St where
   claimed : Nat → Bool
   destroyed : Nat → Bool
   late : Nat → Nat
+  /-- ghost: `holder p = some a`: a took p out of a mailbox and has not woken it yet -/
+  holder : Nat → Option Nat
+  /-- ghost: the fiber whose CAS moved g's detach_state away from NONE into a waiting state (it parks in g's mailbox) -/
+  first : Nat → Option Nat
+  /-- ghost: the client whose CAS moved WAIT_FOR_JOINER to DETACHED (it takes the finished fiber) -/
+  taker : Nat → Option Nat
 
 def init (isTarget : Nat → Bool) : St :=
   { det := fun f => if isTarget f then NONE else DET, ji := fun _ => 0, res := fun _ => 0,
     pc := fun _ => .idle, retval := fun _ => none, succ := fun _ => [],
     detX := fun f => !isTarget f, claimed := fun _ => false, destroyed := fun _ => false,
-    late := fun _ => 0 }
+    late := fun _ => 0, holder := fun _ => none, first := fun _ => none, taker := fun _ => none }
 
 def Ev.counted : Ev → Bool
   | .stRes .. | .ldRes .. | .xchgJi .. | .wJi .. | .wState .. => true
@@ -107,8 +113,9 @@ def Ev.actor : Ev → Nat
 def joinCas (s : St) (a g found exp des : Nat) (ok : Bool) : Option St :=
   if des ≠ (if exp = NONE then WTJ else DET) ∨ ok ≠ decide (found = exp) then none
   else if ok then
-    if exp = NONE then some { s with det := upd s.det g des, pc := upd s.pc a (.jPark0 g) }
-    else some { s with det := upd s.det g des, pc := upd s.pc a (.take0 .join g), claimed := upd s.claimed g true }
+    if exp = NONE then some { s with det := upd s.det g des, pc := upd s.pc a (.jPark0 g), first := upd s.first g (some a) }
+    else some { s with det := upd s.det g des, pc := upd s.pc a (.take0 .join g), claimed := upd s.claimed g true,
+                       taker := upd s.taker g (some a) }
   else if found = WTJ ∨ found = DET then some { s with pc := upd s.pc a (.retn .join g false 0) }
   else some { s with pc := upd s.pc a (.jCas g found) }
 
@@ -116,7 +123,8 @@ def joinCas (s : St) (a g found exp des : Nat) (ok : Bool) : Option St :=
 def detCas (s : St) (a g found exp des : Nat) (ok : Bool) : Option St :=
   if des ≠ DET ∨ ok ≠ decide (found = exp) then none
   else if ok then
-    if exp = WFJ then some { s with det := upd s.det g des, pc := upd s.pc a (.take .detach g 0), detX := upd s.detX g true }
+    if exp = WFJ then some { s with det := upd s.det g des, pc := upd s.pc a (.take .detach g 0), detX := upd s.detX g true,
+                                      taker := upd s.taker g (some a) }
     else some { s with det := upd s.det g des, pc := upd s.pc a (.retn .detach g true 0), detX := upd s.detX g true }
   else if found = WTJ ∨ found = DET then some { s with pc := upd s.pc a (.retn .detach g false 0) }
   else some { s with pc := upd s.pc a (.dCas g found) }
@@ -125,7 +133,7 @@ def detCas (s : St) (a g found exp des : Nat) (ok : Bool) : Option St :=
 def finCas (s : St) (a found exp des : Nat) (ok : Bool) : Option St :=
   if des ≠ (if exp = NONE then WFJ else DET) ∨ ok ≠ decide (found = exp) then none
   else if ok then
-    if exp = NONE then some { s with det := upd s.det a des, pc := upd s.pc a .fPark0 }
+    if exp = NONE then some { s with det := upd s.det a des, pc := upd s.pc a .fPark0, first := upd s.first a (some a) }
     else some { s with det := upd s.det a des, pc := upd s.pc a .fTake, claimed := upd s.claimed a true }
   else if found = DET then some { s with pc := upd s.pc a .fMark }
   else some { s with pc := upd s.pc a (.fCas found) }
@@ -149,7 +157,8 @@ def stepCore (s : St) : Ev → Option St
     | .called .tryjoin g' =>
       if g ≠ g' ∨ exp ≠ WFJ ∨ des ≠ DET ∨ ok ≠ decide (found = exp) then none
       else if ok then
-        some { s with det := upd s.det g des, pc := upd s.pc a (.take0 .tryjoin g), claimed := upd s.claimed g true }
+        some { s with det := upd s.det g des, pc := upd s.pc a (.take0 .tryjoin g), claimed := upd s.claimed g true,
+                      taker := upd s.taker g (some a) }
       else some { s with pc := upd s.pc a (.retn .tryjoin g false 0) }
     | .called .detach g' => if g = g' ∧ exp = NONE then detCas s a g found exp des ok else none
     | .dCas g' e' => if g = g' ∧ exp = e' then detCas s a g found exp des ok else none
@@ -163,13 +172,13 @@ def stepCore (s : St) : Ev → Option St
     | .wake op t val p =>
       if g = p ∧ v = READY ∧ p ≠ a then
         match s.pc p with
-        | .fParked => some { s with pc := upd (upd s.pc p .fWoken) a (.retn op t true val) }
+        | .fParked => some { s with pc := upd (upd s.pc p .fWoken) a (.retn op t true val), holder := upd s.holder p none }
         | _ => none
       else none
     | .fGave p =>
       if g = p ∧ v = READY ∧ p ≠ a then
         match s.pc p with
-        | .jParked t' => some { s with pc := upd (upd s.pc p (.jWoken t')) a .fMark }
+        | .jParked t' => some { s with pc := upd (upd s.pc p (.jWoken t')) a .fMark, holder := upd s.holder p none }
         | _ => none
       else none
     | .fMark => if g = a ∧ v = DONE then some { s with pc := upd s.pc a .fDone } else none
@@ -187,11 +196,11 @@ def stepCore (s : St) : Ev → Option St
     | .take op t v =>
       if g ≠ t then none
       else if old = 0 then some s
-      else some { s with ji := upd s.ji g 0, pc := upd s.pc a (.wake op t v old) }
+      else some { s with ji := upd s.ji g 0, pc := upd s.pc a (.wake op t v old), holder := upd s.holder old (some a) }
     | .fTake =>
       if g ≠ a then none
       else if old = 0 then some s
-      else some { s with ji := upd s.ji g 0, pc := upd s.pc a (.fGot old) }
+      else some { s with ji := upd s.ji g 0, pc := upd s.pc a (.fGot old), holder := upd s.holder old (some a) }
     | _ => none
   | .ldRes a g v =>
     if v ≠ s.res g then none else
